@@ -239,6 +239,7 @@ func c15Service(rc *core.RunCtx, e *Env, l *harness.Node) {
 		}
 		sp := uint64(s.Choose(40, "svc.sp"))
 		before := load()
+		nowBefore := time.Now().Unix()
 		ctx, cancel := Ctx(5 * time.Second)
 		r, err := cli.UpdateServiceGCSafePoint(ctx, &pdpb.UpdateServiceGCSafePointRequest{Header: &pdpb.RequestHeader{ClusterId: e.ClusterID}, ServiceId: []byte(id), TTL: ttl, SafePoint: sp})
 		cancel()
@@ -250,6 +251,18 @@ func c15Service(rc *core.RunCtx, e *Env, l *harness.Node) {
 		rc.Extra["service_ops"]++
 		after := load()
 		now := time.Now().Unix()
+		// PD judges expiry by its TSO clock, which lags the wall clock by at most the update interval and, after a leader
+		// (re-)election, runs ahead of it by up to the TSO save interval until the wall clock has caught up: bracket it
+		lo, hi := nowBefore-2, now+2
+		for _, n := range e.W.Nodes {
+			if n.Up && n.Srv != nil {
+				for _, p := range n.Srv.SimTSOManager().SimPeekAll() {
+					if p.DC == "global" && !p.Physical.IsZero() && p.Physical.Unix()+2 > hi {
+						hi = p.Physical.Unix() + 2
+					}
+				}
+			}
+		}
 		// the collector's own entry always exists with unlimited lifetime
 		if g, ok := after["gc_worker"]; !ok || g.ExpiredAt != math.MaxInt64 {
 			rc.Violate("c15.service", "gc-worker-entry-missing-or-finite", "after update(%s ttl=%d sp=%d) gc_worker entry is %+v (present=%v)", id, ttl, sp, g, ok)
@@ -257,13 +270,13 @@ func c15Service(rc *core.RunCtx, e *Env, l *harness.Node) {
 		}
 		// reported minimum is never above a live registered service
 		for sid, x := range after {
-			if x.ExpiredAt > now+2 && r.GetMinSafePoint() > x.SafePoint {
+			if x.ExpiredAt > hi && r.GetMinSafePoint() > x.SafePoint {
 				rc.Violate("c15.service", "min-above-live-service", "reported min %d (%s) is above live service %s safe point %d", r.GetMinSafePoint(), r.GetServiceId(), sid, x.SafePoint)
 				return
 			}
 			// expired registrations disappear
 			// (the removal of an expired entry is best effort: under injected storage failures it may survive one more round)
-			if x.ExpiredAt < now-2 && !e.W.Etcd.Faults.Enabled {
+			if x.ExpiredAt < lo && !e.W.Etcd.Faults.Enabled {
 				rc.Violate("c15.service", "expired-entry-kept", "service %s expired at %d (now %d) is still stored after an update", sid, x.ExpiredAt, now)
 				return
 			}
@@ -278,13 +291,13 @@ func c15Service(rc *core.RunCtx, e *Env, l *harness.Node) {
 		if ttl > 0 {
 			minBefore := uint64(math.MaxUint64)
 			for _, x := range before {
-				if x.ExpiredAt > now+2 && x.SafePoint < minBefore {
+				if x.ExpiredAt > hi && x.SafePoint < minBefore {
 					minBefore = x.SafePoint
 				}
 			}
 			anyNearExpiry := false
 			for _, x := range before {
-				if x.ExpiredAt >= now-2 && x.ExpiredAt <= now+2 {
+				if x.ExpiredAt >= lo && x.ExpiredAt <= hi {
 					anyNearExpiry = true
 				}
 			}
